@@ -144,6 +144,13 @@ def run_case(case):
             iB = gen.build_instructions({"instructions": insB})
             rA, rB = run(instr=iA), run(instr=iB)
         elif kind.startswith("scenario"):
+            if (u[5] * 100) % 1 < 0.35:
+                # the parameter set's own fallback interpolation of databook values is stepped or pchip (migrated projects): in
+                # force in both runs of the pair, so the scenario still has no effect before its first year
+                method_ = "previous" if (u[5] * 1000) % 1 < 0.5 else "pchip"
+                for par_ in base_parset.all_pars():
+                    par_._interpolation_method = method_
+                R.count("scenario_pairs_on_a_parset_with_%s_interpolation" % method_)
             scen = at.ParameterScenario(name="scen", interpolation="linear" if u[3] < 0.5 else "previous")
             if kind == "scenario_data":
                 cands = [p for p in spec["pars"] if p["db"] and not p["function"] and not p["timed"]]
